@@ -240,6 +240,18 @@ def coq_gen(ctx, gen_text, props_src, name="Gen"):
     return coq_props(ctx, props_file=props_src, extra_q=q)
 
 
+def coqchk_props(ctx, timeout=1500):
+    """Thorough tier: re-check the property's compiled Props.vo and everything it depends on with the independent
+    checker coqchk, and return its context summary (axioms, type-in-type, unsafe fixpoints, assumed positivity)."""
+    cmd = ["timeout", str(timeout), "coqchk", "-silent", "-o", "-Q", "theories", "Verif", "Verif.%s.Props" % ctx.prop]
+    r = subprocess.run(cmd, cwd=COQ, stdout=subprocess.PIPE, stderr=subprocess.STDOUT, text=True, preexec_fn=_limits)
+    out = r.stdout
+    summary = out[out.find("CONTEXT SUMMARY"):] if "CONTEXT SUMMARY" in out else out[-1500:]
+    clean = (r.returncode == 0 and re.search(r"Axioms:\s*<none>", summary) is not None
+             and "type-in-type: <none>" in summary and "unsafe (co)fixpoints: <none>" in summary and "positivity is assumed: <none>" in summary)
+    return dict(ran=True, rc=r.returncode, clean=clean, summary=" ".join(summary.split())[:1200])
+
+
 def coq_eval_cases(ctx, imports, checker, cases, shard=400, extra_q=(), par=8, timeout=1800):
     """cases: list of Coq terms (strings).  Evaluates `checker` (A -> bool*bool) over all of them with
     vm_compute inside coqc; returns (failing, log) with failing = list of (index, agree, ok).  Raises on coqc failure."""
@@ -552,4 +564,12 @@ def standard_flow(ctx, cfg):
     for l in lines:
         if "stats" in l:
             cov["driver_stats"] = l["stats"]
+    if ctx.tier == "thorough" and os.path.exists(os.path.join(THEORIES, prop, "Props.vo")) and not proof_broken:
+        ctx.log("thorough tier: coqchk on %s/Props.vo and its dependencies" % prop)
+        ck = coqchk_props(ctx)
+        cov["coqchk"] = ck
+        cov["trusted_base"].append("coqchk -silent -o (independent checker): " + ("no axioms, no type-in-type, no unsafe fixpoints, no assumed positivity" if ck["clean"] else "NOT CLEAN: " + ck["summary"][:300]))
+        if ck["rc"] == 0 and not ck["clean"]:
+            rp = write_replay(ctx, "coqchk", dict(kind="coqchk-not-clean", unchecked="coqchk reports axioms or unsafe features under %s/Props.vo" % prop, summary=ck["summary"]))
+            violations.append((rp, "no-failing-input-found"))
     return finish(ctx, violations, known_hits, "proof", cov, cfg.get("assumptions", []))
